@@ -57,6 +57,9 @@ def shapes(tier):
     for K in ("default", "normal"):
         out.append({"nt": 2 if K == "default" else 1, "poly": 2, "noff": 1 if K == "default" else 0, "K": K, "units": "sym", "P_unit": "day", "tref": "default", "rows": 1, "slots_only": True})
     out.append({"nt": 1, "poly": 1, "noff": 0, "K": "default", "units": "plain", "P_unit": "year", "tref": "default", "rows": 1, "slots_only": True})
+    # call history: the prior object was used with another data set (other epochs, values, RV unit) before
+    out.append({"nt": 2, "poly": 2, "noff": 0, "K": "normal", "units": "plain", "P_unit": "day", "tref": "default", "rows": 1, "history": "prior_reused"})
+    out.append({"nt": 1, "poly": 1, "noff": 0, "K": "default", "units": "sym", "P_unit": "day", "tref": "default", "rows": 1, "slots_only": True, "history": "prior_reused"})
     out.append({"nt": 1, "poly": 1, "noff": 0, "K": "default", "units": "plain", "P_unit": "sym", "tref": "default", "rows": 1, "slots_only": True})
     return out
 
@@ -419,6 +422,18 @@ def replay(cand):
     s["s"] = (rows[:, 4] * rp["dunit"])
     joker = tj.TheJoker(rp["prior"], rng=np.random.default_rng(0))
     bad = []
+    if shape.get("history") == "prior_reused":
+        # the call history of the shape: the same prior object first serves the data re-expressed in m/s at shifted epochs
+        def other(d):
+            if isinstance(d, dict):
+                return {k: other(v) for k, v in d.items()}
+            if isinstance(d, (list, tuple)):
+                return [other(v) for v in d]
+            return tj.RVData(d.t + 3.25 * u.day, (1.5 * d.rv).to(u.m / u.s), d.rv_err.to(u.m / u.s))
+        try:
+            tj.TheJoker(rp["prior"], rng=np.random.default_rng(1)).marginal_ln_likelihood(other(rp["data"]), s, in_memory=True)
+        except Exception as e:
+            return {"reproduced": True, "detail": "prelude call (same prior, data in m/s) raised %s: %s" % (type(e).__name__, str(e)[:200])}
     try:
         got = np.asarray(joker.marginal_ln_likelihood(rp["data"], s, in_memory=True), dtype=float)
         got2 = np.asarray(joker.marginal_ln_likelihood(rp["data"], s, in_memory=False), dtype=float)
